@@ -419,3 +419,6 @@ w("C17", "*args bundle recognised by comparing lengths again", "pandera/decorato
 w("C17", "**kwargs bundle recognised by comparing key sets again", "pandera/decorators.py",
   "        if star_kwargs_name in named_kwargs:\n            star_kwargs_dict = named_kwargs.pop(star_kwargs_name)\n",
   "        if kwargs.keys() != named_kwargs.keys():\n            _, star_kwargs_dict = named_kwargs.popitem()\n")
+w("C16", "polars builder resolves the raw annotation before looking at the Annotated parameters", "pandera/api/polars/model.py",
+  "            if annotation.metadata:\n                # the parameters of ``Annotated[dtype, *params]`` must not be\n                # dropped by resolving the annotation through its origin\n                if field.dtype_kwargs:",
+  "            if annotation.metadata and not is_polars_dtype and annotation.origin is Series:\n                if field.dtype_kwargs:")
